@@ -676,6 +676,24 @@ impl Database {
         Ok(frames_written as usize)
     }
 
+    /// Autocommit flush of a table's TOAST companion table (no-op inside a transaction, when
+    /// the WAL is off, or when the TOAST table has no dirty page).
+    pub(crate) fn flush_toast_wal_if_autocommit(
+        &self,
+        file_manager: &mut crate::storage::FileManager,
+        schema_name: &str,
+        table_name: &str,
+    ) -> Result<usize> {
+        let toast_table_name = crate::storage::toast::toast_table_name(table_name);
+        let toast_table_id = {
+            let storage_arc = file_manager.table_data(schema_name, &toast_table_name)?;
+            let storage = storage_arc.read();
+            let header = crate::storage::TableFileHeader::from_bytes(storage.page(0)?)?;
+            header.table_id() as u32
+        };
+        self.flush_wal_if_autocommit(file_manager, schema_name, &toast_table_name, toast_table_id)
+    }
+
     fn load_catalog(path: &Path) -> Result<Catalog> {
         use crate::schema::persistence::CatalogPersistence;
         use crate::storage::TableFileHeader;
